@@ -65,6 +65,8 @@ func init() {
 // ---- atomics: sequentially consistent access to the addressed word ----
 
 func libAtomicAdd(x *Exec, fr *Frame, st *State, fn *ssa.Function, args []Val, in ssa.Instruction, rt types.Type) Val {
+	x.inAtomic++
+	defer func() { x.inAtomic-- }()
 	p := x.asPtr(args[0], fn.Signature.Params().At(0).Type())
 	x.atomicTouch(st, p, in)
 	old := x.toTerm(x.load(st, p, in.Pos(), x.src(in)), p.Typ)
@@ -75,6 +77,8 @@ func libAtomicAdd(x *Exec, fr *Frame, st *State, fn *ssa.Function, args []Val, i
 }
 
 func libAtomicStore(x *Exec, fr *Frame, st *State, fn *ssa.Function, args []Val, in ssa.Instruction, rt types.Type) Val {
+	x.inAtomic++
+	defer func() { x.inAtomic-- }()
 	p := x.asPtr(args[0], fn.Signature.Params().At(0).Type())
 	x.atomicTouch(st, p, in)
 	x.store(st, p, args[1], in.Pos(), x.src(in))
@@ -82,12 +86,16 @@ func libAtomicStore(x *Exec, fr *Frame, st *State, fn *ssa.Function, args []Val,
 }
 
 func libAtomicLoad(x *Exec, fr *Frame, st *State, fn *ssa.Function, args []Val, in ssa.Instruction, rt types.Type) Val {
+	x.inAtomic++
+	defer func() { x.inAtomic-- }()
 	p := x.asPtr(args[0], fn.Signature.Params().At(0).Type())
 	x.atomicTouch(st, p, in)
 	return x.load(st, p, in.Pos(), x.src(in))
 }
 
 func libAtomicCAS(x *Exec, fr *Frame, st *State, fn *ssa.Function, args []Val, in ssa.Instruction, rt types.Type) Val {
+	x.inAtomic++
+	defer func() { x.inAtomic-- }()
 	p := x.asPtr(args[0], fn.Signature.Params().At(0).Type())
 	x.atomicTouch(st, p, in)
 	old := x.toTerm(x.load(st, p, in.Pos(), x.src(in)), p.Typ)
@@ -416,7 +424,11 @@ func (x *Exec) execBuiltin(fr *Frame, st *State, name string, cc *ssa.CallCommon
 		})
 		return nil
 	case "close":
-		x.note("close(chan) abstracted")
+		// monotone ghost flag: this channel is known to be closed
+		ch := x.toTerm(args[0], argT(0))
+		h := st.H("ghost:closed", arraySort(sortInt, sortBool))
+		st.setH("ghost:closed", mkStore(h, ch, tTrue))
+		x.note("close(chan): only the ghost flag closed(ch) is modelled")
 		return nil
 	case "print", "println":
 		return nil
